@@ -246,7 +246,12 @@ impl RoaringBitmap {
                 Store::Bitmap(bitmap)
             };
 
-            containers.push(Container { key, store });
+            let mut container = Container { key, store };
+            if is_run_container {
+                // runs are replayed into a store sized from a lower bound of the cardinality
+                container.ensure_correct_store();
+            }
+            containers.push(container);
         }
 
         Ok(RoaringBitmap { containers })
